@@ -112,7 +112,21 @@ func init() {
 	}
 	vNS["A"], vNS["B"], vNS["C"] = mk(0x20), mk(0x40), mk(0x60)
 	vAbsentNS = []libshare.Namespace{mk(0x10), mk(0x30), mk(0x50), mk(0x70)}
+	// the namespace-count ladder: N00 < X00 < N01 < X01 < ... (all above C); Nkk can hold blobs,
+	// Xkk never does
+	for k := 0; k < vLadderMax; k++ {
+		id := make([]byte, libshare.NamespaceVersionZeroIDSize)
+		id[len(id)-3], id[len(id)-2] = 1, byte(k)
+		vNS[fmt.Sprintf("N%02d", k)] = libshare.MustNewV0Namespace(id)
+		id2 := append([]byte{}, id...)
+		id2[len(id2)-1] = 0x80
+		vLadderAbsent = append(vLadderAbsent, libshare.MustNewV0Namespace(id2))
+	}
 }
+
+const vLadderMax = 72
+
+var vLadderAbsent []libshare.Namespace
 
 // vBlobSpec is one blob of a block specification.
 type vBlobSpec struct {
@@ -307,7 +321,7 @@ func (b *vBlock) layout() string {
 		case ns.IsPrimaryReservedPadding():
 			sb.WriteByte('r')
 		default:
-			c := byte('?')
+			c := byte('N') // a ladder namespace
 			for _, n := range vNSNames {
 				if vNS[n].Equals(ns) {
 					c = n[0]
